@@ -208,10 +208,13 @@ static inline size_t varintAdaptiveMaxSize(size_t count) {
         return 1; /* Just header byte */
     }
 
-    /* Worst case: TAGGED encoding with 1 byte header + 9 bytes per value
-     * Header: 1 byte encoding type
-     * Data: worst case is tagged (9 bytes per uint64_t) */
-    return 1 + (count * 9);
+    /* Worst case: DICT encoding of all-unique values (reachable when the
+     * sampled uniqueness estimate is fooled, or when forced):
+     * Header: 1 byte encoding type + dictionary size + value count varints
+     * Data: 9 bytes per dictionary entry + up to 4 bytes per index (the
+     * dictionary size is a uint32_t).
+     * FOR, PFOR, DELTA, TAGGED and BITMAP all stay below this. */
+    return 1 + 9 + 9 + (count * (9 + 4));
 }
 
 /* Calculate compression ratio.
